@@ -20,7 +20,8 @@ LAYOUT_CRATE = os.path.join(VERIF, "harness", "layout")
 LAYOUT_TARGET = os.path.join(BUILD, "layout-native")
 SMIR = os.path.join(BUILD, "mir", "truc.smir")
 
-PREFIX = {"C01": ("C01:",), "C02": ("C02:",), "C03": ("C03:",), "C13": ("C13", "PANIC"), "C12": ("C12:",), "C18": ("C18:",)}
+PREFIX = {"C01": ("C01:",), "C02": ("C02:",), "C03": ("C03:",), "C13": ("C13", "PANIC"), "C12": ("C12:",), "C18": ("C18:",),
+          "C19": ("C19:",), "C20": ("C20",)}
 
 
 def dump_mir():
@@ -51,6 +52,23 @@ def build_replay():
     return True, ""
 
 
+def native_differential(scenario_path, runs=24):
+    """C19: the same scenario in separately started processes; any difference in what they print is
+    a reproduced violation."""
+    exe = os.path.join(LAYOUT_TARGET, "debug", "layout_replay")
+    outs = set()
+    first = None
+    for i in range(runs):
+        rc, out, dt = sh([exe, scenario_path], timeout=60)
+        if first is None:
+            first = out
+        outs.add(out)
+        if len(outs) > 1:
+            return ["C19: separately started processes replaying the same history print different layouts (run 1 vs run %d)" % (i + 1)], \
+                   "--- run 1\n%s--- run %d\n%s" % (first, i + 1, out)
+    return [], "identical output in %d separately started processes\n%s" % (runs, first or "")
+
+
 def native_replay(scenario_path):
     """Runs the scenario against the real builder in dev and release; returns (fail lines, raw)."""
     fails, raw = [], ""
@@ -72,6 +90,71 @@ def _import_mirsym():
     import layout
     import runner
     return layout, runner
+
+
+def plan_other(pid, tier):
+    """Plans of the non-layout mirsym properties."""
+    layout, runner = _import_mirsym()
+    import requests as rq
+    import replaydef as rd
+    base = dict(merge=["select_best"], final=False)
+    P = []
+    native4 = ["simple", "basic", "append_data", "append_data_reverse"]
+    if pid == "C12":
+        P.append(("REQ generic builder: canonical states x 1 symbolic request", rq.req_state_tasks("generic", ["append_data", "append_data_reverse"], 1), base))
+        P.append(("REQ native builder: canonical states x 1 symbolic request", rq.req_state_tasks("native", native4, 1), base))
+        P.append(("REQ generic builder: canonical states x 2 symbolic requests", rq.req_state_tasks("generic", ["append_data"], 2), base))
+        if tier == "quick":
+            P.append(("HISTREQ generic builder: 4 symbolic requests from the empty builder", rq.req_tasks("generic", 4, ["append_data"]), base))
+        else:
+            P.append(("REQ native builder: canonical states x 2 symbolic requests", rq.req_state_tasks("native", ["simple", "basic"], 2), base))
+            P.append(("HISTREQ generic builder: 6 symbolic requests from the empty builder", rq.req_tasks("generic", 6, ["append_data"]), base))
+            P.append(("HISTREQ native builder: 5 symbolic requests from the empty builder", rq.req_tasks("native", 5, ["simple", "basic"]), base))
+    elif pid == "C18":
+        P.append(("RESOLVER: every entry point x every strategy, symbolic resolver answers and overrides", rd.resolver_tasks(native4), base))
+    elif pid == "C20":
+        targets = ["generic"] + native4
+        if tier == "quick":
+            P.append(("CONV V=2 adds (2,1),(1,2),(0,2),(2,0)", rd.conv_tasks(2, [(2, 1), (1, 2), (0, 2), (2, 0)], native4, targets), base))
+            P.append(("CONV V=3 adds (1,1,1),(0,1,1),(1,0,1)", rd.conv_tasks(3, [(1, 1, 1), (0, 1, 1), (1, 0, 1)], ["simple", "append_data"], ["generic", "simple", "basic"]), base))
+        else:
+            P.append(("CONV V=2 adds (2,2),(3,1),(1,3)", rd.conv_tasks(2, [(2, 2), (3, 1), (1, 3)], native4, targets), base))
+            P.append(("CONV V=3 adds (2,1,1),(1,2,1),(1,1,2),(0,2,1),(2,0,1),(0,0,2)", rd.conv_tasks(3, [(2, 1, 1), (1, 2, 1), (1, 1, 2), (0, 2, 1), (2, 0, 1), (0, 0, 2)], native4, targets), base))
+            P.append(("CONV V=4 adds (1,1,1,1)", rd.conv_tasks(4, [(1, 1, 1, 1)], ["simple", "basic"], ["generic", "simple", "append_data"]), base))
+    elif pid == "C19":
+        strategies = native4
+        P.append(("HIST V=2 adds (1,1) all strategy pairs (environment reads counted)", layout.hist_tasks(strategies, 2, [(1, 1)]), dict(base, pending=True, final=True)))
+        P.append(("STEP simple K=1 M=2", layout.step_tasks("simple", 1, 2, 0, 0), dict(base)))
+        P.append(("STEP basic K=2 M=2", layout.step_tasks("basic", 2, 2, 0, 0), dict(base)))
+        # two-environment query: paths of one task that consulted the environment are compared pairwise
+        # (same inputs, other environment choice); needs the whole task in one job
+        P.append(("ENVPAIRS simple K=0 M=2 / K=1 M=2 (pairwise query over environment-reading paths)",
+                  layout.step_tasks("simple", 0, 2, 0, 0) + layout.step_tasks("simple", 1, 2, 0, 0) + layout.step_tasks("basic", 1, 2, 0, 0) +
+                  layout.step_tasks("append_data", 1, 2, 0, 0), dict(base, env_pairs=True, time_slice=3600)))
+        P.append(("RESOLVER entry points", rd.resolver_tasks(native4), base))
+        if tier != "quick":
+            P.append(("HIST V=3 adds (1,1,1)", layout.hist_tasks(strategies, 3, [(1, 1, 1)]), dict(base, pending=True, final=True)))
+    return P
+
+
+def scenario_of(task, model):
+    layout, runner = _import_mirsym()
+    import requests as rq
+    import replaydef as rd
+    k = task["kind"]
+    if k == "step":
+        return layout.model_to_scenario(task, model, {})
+    if k == "def":
+        return layout.def_scenario(task, model)
+    if k == "hist":
+        return layout.model_to_hist_scenario(task, model)
+    if k == "req":
+        return rq.req_scenario(task, model)
+    if k == "conv":
+        return rd.conv_scenario(task, model)
+    if k == "resolver":
+        return rd.resolver_scenario(task, model)
+    raise ValueError(k)
 
 
 # ------------------------------------------------------------------------------------ plans
@@ -199,7 +282,8 @@ def run(pid, tier):
     cands = {}     # (message) -> (task, model)
     inv_breaks = []
     errors = []
-    for label, tasks, opts in plan(pid, tier):
+    the_plan = plan(pid, tier) if pid in ("C01", "C02", "C03", "C13") else plan_other(pid, tier)
+    for label, tasks, opts in the_plan:
         if time.time() > deadline:
             errors.append("time budget exhausted before '%s'" % label)
             break
@@ -265,18 +349,13 @@ def run(pid, tier):
     for (label, key), (task, part, model) in cands.items():
         if not any(part.startswith(p) for p in PREFIX[pid]):
             continue
-        if task["kind"] == "step":
-            sc = layout.model_to_scenario(task, model, {})
-        elif task["kind"] == "def":
-            sc = layout.def_scenario(task, model)
-        else:
-            sc = layout.model_to_hist_scenario(task, model)
+        sc = scenario_of(task, model)
         sc["found_by"] = label
         sc["solver_says"] = part
         nfile += 1
         path = os.path.join(rdir, "%s-%d.json" % (re.sub(r"[^A-Za-z0-9]+", "_", key)[:60], nfile))
         json.dump(sc, open(path, "w"), indent=1)
-        fails, raw = native_replay(path)
+        fails, raw = native_differential(path) if pid == "C19" else native_replay(path)
         validated += 1
         mine = [f for f in fails if any(f.startswith(p) for p in PREFIX[pid])]
         if mine:
@@ -293,6 +372,31 @@ def run(pid, tier):
                     v.violation(path, "%s: solver: %s; native replay: %s" % (label, part, f))
         else:
             v.inconc("%s: solver reports '%s' but the scenario does not reproduce natively (%s)" % (label, part, path))
+    # ---- C13 by-product (a build fact, not a solver verdict): every module of the kgen definition family,
+    # generated by the real generator with four fragment selections, must be accepted by rustc
+    build_fact = None
+    if pid == "C13":
+        try:
+            import check_kgen
+            check_kgen.configure("C13")
+            okb, outb, dtb = check_kgen.build_native(2)
+            build_fact = "generated modules of the definition family (default, +clone, +serde, +both) compile: %s (%.0fs)" % ("yes" if okb else "NO", dtb)
+            if not okb:
+                m = re.search(r"(error(?:\[E\d+\])?: [^\n]*)\n\s*--> ([^\n:]*/out/([A-Za-z0-9_]+)\.rs):(\d+)", outb)
+                pan = re.search(r"panicked at ([^\n]*)\n([^\n]*)", outb)
+                if m and m.group(3) != "harnesses":
+                    rp = os.path.join(rdir, "generated-%s.rs" % m.group(3))
+                    sh(["cp", m.group(2), rp])
+                    v.violation(rp, "C13: the module generated for definition `%s` is rejected by rustc: %s (line %s) [build fact]" %
+                                (m.group(3).split("__")[0], m.group(1)[:160], m.group(4)))
+                elif pan and "build.rs" not in pan.group(1):
+                    rp = os.path.join(rdir, "generator-panic.txt")
+                    open(rp, "w").write(outb[-4000:])
+                    v.violation(rp, "C13: generating code for the definition family panics: %s %s [build fact]" % (pan.group(1)[:120], pan.group(2)[:120]))
+                else:
+                    v.inconc("the harness crate over the generated modules does not build: " + outb[-300:].replace("\n", " | "))
+        except Exception as ex:  # noqa
+            v.inconc("C13 build by-product failed to run: %r" % (ex,))
     if inv_breaks and not v.violations:
         lab, task, part, model = inv_breaks[0]
         v.inconc("the representation invariant (list address-sorted including zero-size data) is not preserved by one close on this tree "
@@ -305,18 +409,18 @@ def run(pid, tier):
         "traces_validated_against_impl": validated + agreed,
         "samples": samples,
         "engine": "mirsym (own symbolic interpreter of rustc stable-MIR, z3 %s) over /repo/truc" % _z3v(),
-        "functions_encoded": ["GenericRecordDefinitionBuilder::{new,add_datum,remove_datum,close_record_variant_with,get_current_*}",
-                              "native::variant::{simple,basic,append_data,append_data_reverse} and helpers (compute_initial_gaps, fit_datum_to_gap, "
-                              "select_best, select_start_or_end_of_gap, align_bytes, NativeDataUpdater::{end,remove_data,push_datum})",
-                              "RecordDefinition::{max_size,max_type_align}, Display for RecordDefinition<NativeDatumDetails>"],
-        "bounds": "sizes 0..%d, alignments %s, pre-state offsets 0..%d; shapes listed in samples (K live data, M added, stale = removed in an earlier variant, "
-                  "pending = added and removed before a close); all removal subsets; strategy per close as listed" % (layout.SMAX, layout.ALIGNS, layout.OMAX),
+        "functions_encoded": FUNCS.get(pid, FUNCS["layout"]),
+        "bounds": BOUNDS.get(pid, "sizes 0..%d, alignments %s, pre-state offsets 0..%d; shapes listed in samples (K live data, M added, stale = removed in an earlier variant, "
+                  "pending = added and removed before a close); all removal subsets; strategy per close as listed" % (layout.SMAX, layout.ALIGNS, layout.OMAX)),
+        "environment_reads": int(tot_all.get("env_reads_total", 0)),
+        "host_reads": int(tot_all.get("host_reads_total", 0)),
         "invariant": "every listed datum aligned; each datum of a variant's list starts at or after the end of the previous one (zero-size data included)",
         "unit_meaning": "states = symbolic paths explored to the end; transitions = z3 queries",
         "solver_s": round(tot_all.get("solver_s", 0.0), 1),
         "encoder_validation": "%d random concrete histories agree between native run and interpreter" % agreed,
         "mir_dump": info,
         "inv_breaks": len(inv_breaks),
+        "build_fact": build_fact,
         "repo_head": repo_head(),
         "exhaustive": False,
     }
@@ -329,6 +433,33 @@ def run(pid, tier):
     ]
     write_evidence(pid, tier, coverage, time.time() - t0, violations=len(v.violations), assumptions=assumptions)
     return v.finish()
+
+
+FUNCS = {
+    "layout": ["NativeRecordDefinitionBuilder::{new,add_datum_override,remove_datum,close_record_variant_with}",
+               "GenericRecordDefinitionBuilder::{new,add_datum,remove_datum,close_record_variant_with,get_current_*,build}",
+               "native::variant::{simple,basic,append_data,append_data_reverse} and helpers (compute_initial_gaps, fit_datum_to_gap, select_best, "
+               "select_start_or_end_of_gap, align_bytes, NativeDataUpdater::{end,remove_data,push_datum})",
+               "RecordDefinition::{max_size,max_type_align}, Display for RecordDefinition<NativeDatumDetails>"],
+    "C12": ["GenericRecordDefinitionBuilder::{new,add_datum,remove_datum,has_pending_changes,close_record_variant_with,get_current_data,"
+            "get_current_datum_definition_by_name,build}", "NativeRecordDefinitionBuilder::{add_datum_override,remove_datum,close_record_variant_with,...}",
+            "generic::variant::{append_data,append_data_reverse}, native strategies", "DatumDefinitionCollection::{push,get,get_mut}"],
+    "C18": ["NativeRecordDefinitionBuilder::{add_datum,add_datum_allow_uninit,add_datum_override,add_dynamic_datum,copy_datum,close_record_variant_with}",
+            "TypeResolver for &R (forwarding impl); the driver's resolver answers symbolically", "native strategies"],
+    "C19": ["everything of the layout family, with hashed containers' iteration order, addresses cast to integers, clocks and the process environment as environment symbols"],
+    "C20": ["record::definition::convert::convert_record_definition", "NativeRecordDefinitionBuilder::{copy_datum,remove_datum,close_record_variant_with}",
+            "GenericRecordDefinitionBuilder::{add_datum,remove_datum,close_record_variant_with,build}", "RecordDefinition::{variants,Index<DatumId>}, RecordVariant::{data,id}"],
+}
+BOUNDS = {
+    "C12": "canonical builder states (optional stale datum re-using a name, 0..3 live data, ordered pending removals <= 2, pending additions <= 2) followed by 1 or 2 symbolic "
+           "requests (kind per task; name index over a 3-letter alphabet and datum id over all ids + 1 unknown symbolic), and request sequences of length L from the empty "
+           "builder (L in samples); generic builder with both dummy strategies, native builder with the shipped ones",
+    "C18": "each of the five entry points that attach type information, resolver answers (size 0..24, alignment in {1,2,4,8,16}, name, may-be-uninit) symbolic, "
+           "override fields symbolically present/absent, each shipped strategy; host size/alignment queries are symbols of their own",
+    "C19": "the explorations listed in samples; environment reads are counted per path (and make the path a candidate that is replayed in 24 separately started processes)",
+    "C20": "source definitions from bounded histories (V closes, additions per close as listed, every removal subset, names re-used after removal, zero-size / odd / "
+           "over-aligned shapes) through the native builder; targets: generic builder and native builder with each strategy",
+}
 
 
 def _z3v():
